@@ -1082,6 +1082,8 @@ class Interp:
         if isinstance(a, (str, StrT)) and isinstance(b, (str, StrT)):
             if canon(a) == canon(b):
                 return a
+            if any(isinstance(x, StrT) and any(isinstance(q, JoinT) for q in x.parts) for x in (a, b)):
+                return _NOPE      # keep the structure of joins over symbolic sequences: fork instead of merging
             return mkstr([z3.If(c, to_zstr(a), to_zstr(b))])
         if isinstance(a, (bool, z3.BoolRef)) and isinstance(b, (bool, z3.BoolRef)):
             return z3.If(c, self.zbool(a), self.zbool(b))
